@@ -59,19 +59,25 @@ def applyMeta (m : Metadata) (k : Bytes) (v : Val) : Metadata :=
 def applyMetadata (props : List (Bytes × Val)) : Metadata :=
   props.foldl (fun m (k, v) => applyMeta m k v) {}
 
+/-- a property that is present only when the field is set -/
+def optProp {α : Type} (name : Bytes) (mk : α → Val) (o : Option α) : List (Bytes × Val) :=
+  match o with
+  | some x => [(name, mk x)]
+  | none => []
+
 /-- the property map both `send_metadata` and `publish_metadata` build -/
 def metadataProps (m : Metadata) : List (Bytes × Val) :=
-  (match m.videoWidth with | some x => [(str "width", Val.number (F64.ofU32 x))] | none => []) ++
-  (match m.videoHeight with | some x => [(str "height", Val.number (F64.ofU32 x))] | none => []) ++
-  (match m.videoCodecId with | some x => [(str "videocodecid", Val.number (F64.ofU32 x))] | none => []) ++
-  (match m.videoBitrateKbps with | some x => [(str "videodatarate", Val.number (F64.ofU32 x))] | none => []) ++
-  (match m.videoFrameRate with | some x => [(str "framerate", Val.number (F64.ofF32 x))] | none => []) ++
-  (match m.audioCodecId with | some x => [(str "audiocodecid", Val.number (F64.ofU32 x))] | none => []) ++
-  (match m.audioBitrateKbps with | some x => [(str "audiodatarate", Val.number (F64.ofU32 x))] | none => []) ++
-  (match m.audioSampleRate with | some x => [(str "audiosamplerate", Val.number (F64.ofU32 x))] | none => []) ++
-  (match m.audioChannels with | some x => [(str "audiochannels", Val.number (F64.ofU32 x))] | none => []) ++
-  (match m.audioIsStereo with | some x => [(str "stereo", Val.boolean x)] | none => []) ++
-  (match m.encoder with | some x => [(str "encoder", Val.str x)] | none => [])
+  optProp (str "width") (fun x => Val.number (F64.ofU32 x)) m.videoWidth ++
+  optProp (str "height") (fun x => Val.number (F64.ofU32 x)) m.videoHeight ++
+  optProp (str "videocodecid") (fun x => Val.number (F64.ofU32 x)) m.videoCodecId ++
+  optProp (str "videodatarate") (fun x => Val.number (F64.ofU32 x)) m.videoBitrateKbps ++
+  optProp (str "framerate") (fun x => Val.number (F64.ofF32 x)) m.videoFrameRate ++
+  optProp (str "audiocodecid") (fun x => Val.number (F64.ofU32 x)) m.audioCodecId ++
+  optProp (str "audiodatarate") (fun x => Val.number (F64.ofU32 x)) m.audioBitrateKbps ++
+  optProp (str "audiosamplerate") (fun x => Val.number (F64.ofU32 x)) m.audioSampleRate ++
+  optProp (str "audiochannels") (fun x => Val.number (F64.ofU32 x)) m.audioChannels ++
+  optProp (str "stereo") (fun x => Val.boolean x) m.audioIsStereo ++
+  optProp (str "encoder") (fun x => Val.str x) m.encoder
 
 /-- lookup / removal in a property map -/
 def propGet (k : Bytes) : List (Bytes × Val) → Option Val
